@@ -124,7 +124,13 @@ def judge(b: Batch, base, tree, spelling, as_bytes, empty_src, comp):
         wit = {"tree": sorted(tree), "src": repr(src), "dest": repr(dest)}
         b.case()
         # ---- moved
-        got = list(generate_sub_moved_events(src, dest))
+        try:
+            got = list(generate_sub_moved_events(src, dest))
+            gotc2 = list(generate_sub_created_events(dest))
+        except Exception as e:  # noqa: BLE001
+            b.count("trees_judged")
+            b.violation("sub-events-raised", f"generator raised {type(e).__name__}: {e} for src={src!r} dest={dest!r}", witness=wit, replay_spec=rs)
+            return
         either = {os.path.join(dest, os.fsencode(r) if as_bytes else r) for r, isd in walk if isd == "either"}
         if either:
             b.count("trees_with_directory_links")
@@ -153,7 +159,6 @@ def judge(b: Batch, base, tree, spelling, as_bytes, empty_src, comp):
             if any((e.src_path and type(e.src_path) is not type(dest)) or type(e.dest_path) is not type(dest) for e in got):
                 b.violation("sub-moved-type", "path type differs from the argument type", witness=wit, replay_spec=rs)
         # ---- created
-        gotc2 = list(generate_sub_created_events(dest))
         want2 = Counter()
         for r, isd in walk:
             rr = os.fsencode(r) if as_bytes else r
